@@ -87,13 +87,14 @@ impl Function {
         self.add_line(line);
     }
 
-    /// Strip debug information for release builds: function names and line tables.
+    /// Strip debug information for release builds: the line tables.
     ///
     /// The names in `global_layout` are not debug information: every function has its own
     /// layout and the VM binds a nested function's global slots to the program's globals by
-    /// these names, so they stay.
+    /// these names, so they stay. Nor is the function's own name: it is part of the value a
+    /// program can observe (`println(f)` prints `<function f>`), and a saved program has to
+    /// print what the same program prints when it is run from source at the same level.
     pub fn strip_debug_info(&mut self) {
-        self.name = None;
         self.lines.clear();
         for nested in &mut self.nested_functions {
             nested.strip_debug_info();
